@@ -1,6 +1,7 @@
 package vanguard
 
 import (
+	"context"
 	"net/http"
 	"net/url"
 )
@@ -226,10 +227,9 @@ func hC18Dispatch() {
 		verifReach("accepted")
 		verifAssert(total == 1, "C18: an acceptable request is dispatched exactly once")
 	}
-	verifAssert(verifLastCtx != nil && verifLastCtx.cancelled, "C18: the request context handed to the handler is cancelled when ServeHTTP returns")
 	if p.backend.rec.calls == 1 {
-		c, ok := p.backend.rec.ctx.(*verifCtx)
-		verifAssert(ok && c == verifLastCtx, "C18: the handler received the cancellable context")
+		verifReach("context-observed")
+		verifAssert(p.backend.rec.ctx != nil && p.backend.rec.ctx.Err() != nil, "C18: the request context handed to the handler is cancelled when ServeHTTP returns")
 	}
 	_ = url.URL{}
 }
@@ -242,7 +242,9 @@ func hC18Panic() {
 	if !p.buildOK {
 		return
 	}
+	var seen context.Context
 	p.tr.methods[pipePath].handler = http.HandlerFunc(func(w http.ResponseWriter, r *http.Request) {
+		seen = r.Context()
 		if verifChoose("write-first", 2) == 1 {
 			w.WriteHeader(200)
 		}
@@ -260,5 +262,5 @@ func hC18Panic() {
 	}()
 	verifReach("handler-panicked")
 	verifAssert(panicked, "handler panic propagates to the HTTP server")
-	verifAssert(verifLastCtx != nil && verifLastCtx.cancelled, "C18: context cancelled even when the handler panics")
+	verifAssert(seen != nil && seen.Err() != nil, "C18: context cancelled even when the handler panics")
 }
